@@ -371,6 +371,17 @@ def work(prop, m, slot):
 
 
 def main():
+    if sys.argv[1] == 'union':
+        rows = union_report(sys.argv[2:])
+        count = {}
+        for verdict, key, st in rows:
+            count[verdict] = count.get(verdict, 0) + 1
+        print(count)
+        for verdict, key, st in rows:
+            if verdict in ('survivor', 'machinery/timeout'):
+                print(verdict, key[0].split('/')[-1], key[1], key[2], key[3],
+                      repr(key[4][:50]), '->', repr(key[5][:50]), sorted(st))
+        return
     cmd, prop = sys.argv[1], sys.argv[2]
     args = sys.argv[3:]
     ms = enumerate_mutants(prop)
@@ -447,6 +458,35 @@ def main():
     for i in range(jobs):
         for d in ('/var/tmp/mut_%s_%d_%d' % (prop, os.getpid(), i), '/var/tmp/mut_%s_%d_%d_ev' % (prop, os.getpid(), i)):
             shutil.rmtree(d, ignore_errors=True)
+
+
+
+
+def union_report(props):
+    """Mutants of shared code are run once per property that targets it; a
+    mutant counts as detected when the check of any property reports it."""
+    seen = {}
+    for prop in props:
+        path = os.path.join(OUT, prop + '.jsonl')
+        if not os.path.exists(path):
+            continue
+        for l in open(path):
+            r = json.loads(l)
+            key = (r['file'], r['func'], r['line'], r['kind'], r['old'], r['new'])
+            seen.setdefault(key, {})[prop] = r['status']
+    rows = []
+    for key, st in sorted(seen.items()):
+        vals = set(st.values())
+        if 'detected' in vals:
+            verdict = 'detected'
+        elif 'killed-by-tests' in vals:
+            verdict = 'killed-by-tests'
+        elif vals & {'machinery', 'timeout'}:
+            verdict = 'machinery/timeout'
+        else:
+            verdict = 'survivor'
+        rows.append((verdict, key, st))
+    return rows
 
 
 if __name__ == '__main__':
